@@ -29,7 +29,7 @@ FUNCTIONS = ['MultiVector.__new__ (all input normalisation branches)', 'MultiVec
              'MultiVector.__contains__/items/keys/values', 'MultiVector.grade', 'MultiVector.asfullmv', 'MultiVector.map', 'MultiVector.filter',
              'Algebra.multivector/purevector/evenmv/oddmv/scalar/vector/.../pseudo*']
 ASSUMPTIONS = ['labels are reals; construction forms, spellings and algebras are enumerated', 'two keywords naming the same blade are not generated (ambiguous input)']
-BOUNDS = {'quick': 'default bases d<=4 and custom bases (named + sampled), graded on/off; all key subsets d<=2, sampled above; every permutation spelling up to 4 generators',
+BOUNDS = {'quick': 'default bases d<=4 and custom bases (named + sampled), graded on/off; all key subsets d<=2, sampled above; every permutation spelling up to 4 generators; silent-drop clauses (keywords outside the algebra / next to values / two spellings / no blade names, duplicates, generator keys), absent blades under start indices 3..14, containment by any spelling, graded permuted keys and mappings',
           'thorough': 'more sampled subsets and custom bases, d=5'}
 OUTSIDE = ['generator names beyond single hex digits', 'array-valued coefficients (C16)']
 LABEL_MOVEMENT = True
